@@ -32,11 +32,46 @@ JS_POOL = tuple(s + ";" for s in (
 ))
 
 
+def _cut_comment(line, marker):
+    """Cut at the first comment marker that is not inside a string literal."""
+    quote, i = None, 0
+    while i < len(line):
+        ch = line[i]
+        if quote:
+            if ch == "\\":
+                i += 2
+                continue
+            if ch == quote:
+                quote = None
+        elif ch in "\"'`":
+            quote = ch
+        elif line.startswith(marker, i):
+            return line[:i]
+        i += 1
+    return line
+
+
 def norm(line, lang):
-    c = "#" if lang == "python" else "//"
-    if c in line:
-        line = line[:line.index(c)]
-    return " ".join(line.split())
+    if lang != "python":
+        line = re.sub(r"/\*.*?\*/", "", line)          # a block comment closed on the same line
+    return " ".join(_cut_comment(line, "#" if lang == "python" else "//").split())
+
+
+def norm_block(lines, lang):
+    """Normalised code lines of a slice (comment-only lines, block comments and blank lines dropped)."""
+    out, inside = [], False
+    for l in lines:
+        if inside:
+            if "*/" in l:
+                inside = False
+            continue
+        if lang != "python" and l.strip().startswith("/*") and "*/" not in l:
+            inside = True
+            continue
+        x = norm(l, lang)
+        if x:
+            out.append(x)
+    return out
 
 
 def build_file(lang, tag, places, r, style, run_at_end=False):
@@ -71,6 +106,10 @@ def build_file(lang, tag, places, r, style, run_at_end=False):
             if style == "commented" and i == 1:
                 lines.append(f"{ind}{extra}{'#' if py else '//'} explanatory note {tag}")
                 lines.append("")
+            if style == "block-commented" and i == 1:
+                lines.append(f"{ind}{extra}{'# block note ' + tag if py else '/* block note ' + tag + ' */'}")
+                if not py:
+                    lines += [f"{ind}{extra}/* a note", f"{ind}{extra}   over two lines {tag} */"]
             if style == "commented-late" and r >= 3 and i == r - 2:
                 lines += [f"{ind}{extra}{'#' if py else '//'} note {n} {tag}" for n in (1, 2, 3)]
             s = pool[i]
@@ -107,7 +146,7 @@ def make_h(tier):
         r = ctx.pick("run_length", (1, 2, 3, 4, 6) if quick else (1, 2, 3, 4, 5, 6, 7))
         layout = ctx.pick("layout", ("A+B", "A+A", "A+B+C", "A+A+B", "A-only-once") if quick else
                           ("A+B", "A+A", "A+B+C", "A+A+B", "A-only-once", "A+A+A", "A+B+B+C"))
-        style = ctx.pick("style", ("plain", "indented", "callback", "method", "async-method", "commented", "commented-late", "spaced", "trailing-comment"))
+        style = ctx.pick("style", ("plain", "indented", "callback", "method", "async-method", "commented", "block-commented", "commented-late", "spaced", "trailing-comment"))
         off = ctx.pick("offset", (0, 1, 3))
         at_end = ctx.flag("run_at_end_of_last_file") if lang == "python" else False
         minocc = ctx.int("min_occurrences", 1)
@@ -139,6 +178,11 @@ def make_h(tier):
                     ["this.#alpha = compute(1);", "this.#beta = compute(2);", "this.#gamma = compute(3);", "this.#delta = compute(4);"]
                 diff_z = ["half = count // 7", "rest = width // 9", "tail = depth // 13", "last = span // 17"] if py else \
                     ["this.#omega = compute(1);", "this.#psi = compute(2);", "this.#chi = compute(3);", "this.#phi = compute(4);"]
+                # ... and lines that differ only inside a string literal that contains the language's OWN comment marker
+                diff_y += [f"y_gap2 = y_stage(state, 74){endc}"] + (["color = \"#ff0000\"", "label = \"#title\"", "anchor = \"#top\"", "mark = '#a'"] if py else
+                           ["const u1 = \"http://alpha.example/a\";", "const u2 = \"http://alpha.example/b\";", "const u3 = 'http://alpha.example/c';", "const u4 = `http://alpha.example/d`;"])
+                diff_z += [f"z_gap2 = z_stage(state, 75){endc}"] + (["color = \"#00ff00\"", "label = \"#footer\"", "anchor = \"#end\"", "mark = '#b'"] if py else
+                           ["const u1 = \"http://beta.example/a\";", "const u2 = \"http://beta.example/b\";", "const u3 = 'http://beta.example/c';", "const u4 = `http://beta.example/d`;"])
                 for tag, body in (("y", list(reversed(pool[:max(r, 2)])) + [f"y_gap = y_stage(state, 71){endc}",
                                         f"y_twice = y_double(state, 5){endc}", f"y_twice = y_double(state, 5){endc}", pool[-1],
                                         f"y_sep = y_stage(state, 72){endc}"] + diff_y),
@@ -174,10 +218,10 @@ def make_h(tier):
             locs = re.findall(r"([^,\s][^,]*?):(\d+)-(\d+)", also or "")
             spans.append((v.file_path, v.line, v.line + n - 1))
             ctx.require("names-another-location", len(locs) >= 1, msg=v.message)
-            mine = [x for x in (norm(l, lang) for l in texts[v.file_path][v.line - 1:v.line - 1 + n]) if x]
+            mine = norm_block(texts[v.file_path][v.line - 1:v.line - 1 + n], lang)
             for path, a, b in locs:
                 path = path.strip()
-                theirs = [x for x in (norm(l, lang) for l in texts.get(path, [])[int(a) - 1:int(b)]) if x]
+                theirs = norm_block(texts.get(path, [])[int(a) - 1:int(b)], lang)
                 ctx.require("named-location-holds-identical-code", theirs == mine and len(mine) > 0,
                             block=mine[:3], other=theirs[:3], at=f"{Path(path).name}:{a}-{b}")
             ctx.require("count-is-number-of-distinct-places", k == 1 + len(locs) and k == m, msg=v.message, planted=m)
